@@ -47,6 +47,10 @@ pub fn set_op<K: SimK, V: SimV, const C: usize>(s: &mut Set<K, C>, cx: &mut Cx<K
             win!(aw, s.retain(|k| {
                 let pk = k.peek();
                 env::touch(Cb::Pred, Some(&pk), None);
+                {
+                    let _p = crate::alloc::Pause::new();
+                    cx.inside("Set::retain predicate", k as *const K as usize, std::mem::size_of::<K>(), std::mem::align_of::<K>(), base, size);
+                }
                 let r = (keep >> (i % 32)) & 1 == 1;
                 i += 1;
                 r
@@ -58,9 +62,10 @@ pub fn set_op<K: SimK, V: SimV, const C: usize>(s: &mut Set<K, C>, cx: &mut Cx<K
         }
         Op::SDrain { take, end, .. } => {
             let mut sess = Session::new("Set::drain", pre, (true, false));
+            let order = twin_order_set(s, pre, true);
             {
                 let d = win!(aw, s.drain());
-                let rest = consume(d, cx, &mut sess, *take, *end, |x: &K| (x.peek().id, 0), |cx, x| cx.ret_k("Set::drain", x), (K::ANON, true));
+                let rest = consume(d, cx, &mut sess, *take, *end, |x: &K| (x.peek().id, 0), |cx, x| cx.ret_k("Set::drain", x), (K::ANON, true), order.as_deref().map(|o| (o, &(|x: &K| (x.peek().class, 0u64)) as &dyn Fn(&K) -> (u32, u64))));
                 if let Some(d) = rest {
                     if *end == End::Forget {
                         forget_remaining(cx, pre, &sess, false);
@@ -74,12 +79,34 @@ pub fn set_op<K: SimK, V: SimV, const C: usize>(s: &mut Set<K, C>, cx: &mut Cx<K
             if s.len() != 0 || !left.is_empty() || !s.is_empty() {
                 violate("drain-not-empty", format!("after Set::drain() (taken {} of {}, end {:?}) len()={} and iteration yields {} elements", sess.taken, pre.len(), end, s.len(), left.len()));
             }
+            if *end != End::Forget && !cx.lying {
+                let ok = crate::world::observing(|| {
+                    std::panic::catch_unwind(std::panic::AssertUnwindSafe(|| {
+                        let want = if K::ANON { C.min(1) } else { C };
+                        let mut good = true;
+                        for i in 0..want {
+                            good &= s.insert(K::make(50_000 + i as u32, 0));
+                        }
+                        good &= s.len() == want && s.iter().count() == want;
+                        for i in 0..want {
+                            good &= s.contains::<K>(&K::make(50_000 + i as u32, 0));
+                        }
+                        s.clear();
+                        good && s.is_empty()
+                    }))
+                    .unwrap_or(false)
+                });
+                if !ok {
+                    violate("drain-not-reusable", format!("after Set::drain() (taken {} of {}, end {:?}) the set cannot be refilled to its capacity {C} and queried", sess.taken, pre.len(), end));
+                }
+            }
         }
         Op::SIntoIter { take, end, .. } => {
             let mut sess = Session::new("Set::into_iter", pre, (true, false));
+            let order = twin_order_set(s, pre, false);
             let owned = std::mem::replace(s, Set::new());
             let it = win!(aw, owned.into_iter());
-            let rest = consume(it, cx, &mut sess, *take, *end, |x: &K| (x.peek().id, 0), |cx, x| cx.ret_k("Set::into_iter", x), (K::ANON, true));
+            let rest = consume(it, cx, &mut sess, *take, *end, |x: &K| (x.peek().id, 0), |cx, x| cx.ret_k("Set::into_iter", x), (K::ANON, true), order.as_deref().map(|o| (o, &(|x: &K| (x.peek().class, 0u64)) as &dyn Fn(&K) -> (u32, u64))));
             if let Some(it) = rest {
                 if *end == End::Forget {
                     forget_remaining(cx, pre, &sess, false);
@@ -143,6 +170,7 @@ pub fn set_op<K: SimK, V: SimV, const C: usize>(s: &mut Set<K, C>, cx: &mut Cx<K
                 }
             }
         }
+        Op::SExtendRef { items, src, .. } => crate::ops_bulk::set_extend_ref::<K, V, C>(cx, items, src, pre),
         Op::Fill { .. } => {
             let mut c = 0u32;
             let mut guard = 0;
@@ -165,12 +193,36 @@ pub fn set_op<K: SimK, V: SimV, const C: usize>(s: &mut Set<K, C>, cx: &mut Cx<K
                 cx.probe("set_filled_to_full");
             }
         }
-        Op::DropNew { .. } => {
-            let old = std::mem::replace(s, Set::new());
+        Op::DropNew { dflt, .. } => {
+            let fresh: Set<K, C> = if *dflt { win!(aw, Set::default()) } else { win!(aw, Set::new()) };
+            let old = std::mem::replace(s, fresh);
             win!(aw, drop(old));
         }
         _ => unreachable!("not a single-set operation: {op:?}"),
     }
+}
+
+/// Set counterpart of `twin_order_map`.
+fn twin_order_set<K: SimK, const C: usize>(s: &Set<K, C>, pre: &Snap, drain: bool) -> Option<Vec<(u32, u64)>> {
+    crate::world::observing(|| {
+        std::panic::catch_unwind(std::panic::AssertUnwindSafe(|| {
+            let mut twin = s.clone();
+            let ts = snap_set(&twin);
+            if ts.len() != pre.len() || ts.iter().zip(pre.iter()).any(|(a, b)| a.kclass != b.kclass) {
+                return None;
+            }
+            let v: Vec<(u32, u64)> = if drain {
+                let v = twin.drain().map(|k| (k.peek().class, 0)).collect();
+                drop(twin);
+                v
+            } else {
+                twin.into_iter().map(|k| (k.peek().class, 0)).collect()
+            };
+            Some(v)
+        }))
+        .ok()
+        .flatten()
+    })
 }
 
 fn set_lookup<K: SimK + Borrow<Q>, V: SimV, const C: usize, Q: PartialEq + ?Sized>(s: &mut Set<K, C>, cx: &mut Cx<K, V>, op: &Op, q: &Q) {
@@ -237,6 +289,24 @@ pub fn set_sub<K: SimK, V: SimV, const C1: usize, const C2: usize>(a: &Set<K, C1
     win!(aw, drop(r));
 }
 
+/// `difference_ref` on sets of references: the left operand holds references to the elements of
+/// `a`, the right one references to the elements of `b`; what it yields are the very references
+/// stored in the left operand, i.e. pointers to elements of `a`.
+pub fn set_diff_ref<K: SimK, V: SimV, const C1: usize, const C2: usize>(a: &Set<K, C1>, b: &Set<K, C2>, cx: &mut Cx<K, V>, how: AlgUse) {
+    let aw = cx.cfg.alloc_window;
+    cx.probe("difference_ref");
+    let mut ra: Set<&K, C1> = win!(aw, Set::new());
+    for k in a.iter() {
+        win!(aw, ra.insert(k));
+    }
+    let mut rb: Set<&K, C2> = win!(aw, Set::new());
+    for k in b.iter() {
+        win!(aw, rb.insert(k));
+    }
+    let r = range_of(a);
+    drive(win!(aw, ra.difference_ref(&rb)), cx, how, [r, r], "difference_ref");
+}
+
 fn drive<'x, K: SimK + 'x, V: SimV, I>(mut it: I, cx: &mut Cx<K, V>, how: AlgUse, ranges: [(usize, usize); 2], what: &'static str)
 where
     I: Iterator<Item = &'x K> + Clone + core::fmt::Debug,
@@ -261,17 +331,21 @@ where
             }
         }
         AlgUse::Fold => {
-            let mut seen: [usize; 40] = [0; 40];
+            let mut outside = 0usize;
             let n = win!(aw, it.fold(0usize, |acc, k| {
                 let p = k.peek();
                 env::touch(Cb::Closure, Some(&p), None);
-                if acc < 40 {
-                    seen[acc] = k as *const K as usize;
+                let a = k as *const K as usize;
+                let sz = std::mem::size_of::<K>();
+                if sz > 0 && !ranges.iter().any(|(b, s)| a >= *b && a + sz <= *b + *s) {
+                    outside += 1;
                 }
                 acc + 1
             }));
             cx.dg(n as u64);
-            cx.dg(seen[0] as u64 & 0);
+            if outside > 0 {
+                violate("outside-container", format!("{what}: fold handed {outside} reference(s) that point into neither operand"));
+            }
         }
         AlgUse::Count => {
             let n = win!(aw, it.count());
